@@ -3,6 +3,7 @@ import SqiModel.VerifyAccess
 import SqiGen.Tables1
 import SqiGen.Tables3
 import SqiGen.Tables5
+import SqiGen.VerifConsts
 
 namespace SqiModel.Verify
 
@@ -16,6 +17,10 @@ def L1 : Lvl where
   nwField := SqiGen.L1.D_NWORDS_FIELD
   radix := 64   -- tutil.h RADIX under -DRADIX_64 (the configuration every check builds)
   nqr := SqiGen.L1.W64.NQR_TABLE.length
+  hintThrP := SqiGen.VerifConsts.hintThrNotAbove
+  hintThrQ := SqiGen.VerifConsts.hintThrAbove
+  hintLoP := SqiGen.VerifConsts.hintLoNotAbove
+  hintLoQ := SqiGen.VerifConsts.hintLoAbove
   cols4 := SqiGen.L1.STRATEGY4_cols
   cols2 := SqiGen.L1.strategies_cols
   strat4 := SqiGen.L1.STRATEGY4
@@ -31,6 +36,10 @@ def L3 : Lvl where
   nwField := SqiGen.L3.D_NWORDS_FIELD
   radix := 64
   nqr := SqiGen.L3.W64.NQR_TABLE.length
+  hintThrP := SqiGen.VerifConsts.hintThrNotAbove
+  hintThrQ := SqiGen.VerifConsts.hintThrAbove
+  hintLoP := SqiGen.VerifConsts.hintLoNotAbove
+  hintLoQ := SqiGen.VerifConsts.hintLoAbove
   cols4 := SqiGen.L3.STRATEGY4_cols
   cols2 := SqiGen.L3.strategies_cols
   strat4 := SqiGen.L3.STRATEGY4
@@ -46,6 +55,10 @@ def L5 : Lvl where
   nwField := SqiGen.L5.D_NWORDS_FIELD
   radix := 64
   nqr := SqiGen.L5.W64.NQR_TABLE.length
+  hintThrP := SqiGen.VerifConsts.hintThrNotAbove
+  hintThrQ := SqiGen.VerifConsts.hintThrAbove
+  hintLoP := SqiGen.VerifConsts.hintLoNotAbove
+  hintLoQ := SqiGen.VerifConsts.hintLoAbove
   cols4 := SqiGen.L5.STRATEGY4_cols
   cols2 := SqiGen.L5.strategies_cols
   strat4 := SqiGen.L5.STRATEGY4
